@@ -22,6 +22,17 @@ int main(void)
       matrix *xy = rd_matrix(), *S; dvector *xs = rd_dvector(), *yp;
       initMatrix(&S); cubic_spline_interpolation(xy, S); pr_matrix("S", S);
       initDVector(&yp); cubic_spline_predict(xs, S, yp); pr_dvector("pred", yp);
+      reuse_mask = 0;
+      { /* the same fit into a coefficient table that held the spline of a LARGER data set before (three more knots),
+           and the same prediction into a vector that already holds numbers */
+        matrix *big, *S2; dvector *y2; size_t i_, n_ = xy->row; double h_ = (n_ > 1) ? (xy->data[n_-1][0] - xy->data[n_-2][0]) : 1.0;
+        NewMatrix(&big, n_ + 3, 2);
+        for(i_ = 0; i_ < n_; i_++){ big->data[i_][0] = xy->data[i_][0]; big->data[i_][1] = xy->data[i_][1] + 1.0; }
+        for(i_ = 0; i_ < 3; i_++){ big->data[n_+i_][0] = xy->data[n_-1][0] + h_*(double)(i_+1); big->data[n_+i_][1] = 2.0 - (double)i_; }
+        initMatrix(&S2); cubic_spline_interpolation(big, S2); cubic_spline_interpolation(xy, S2); RB(0, same_m(S2, S));
+        y2 = dup_dvector(yp); junk_v(y2); cubic_spline_predict(xs, S2, y2); RB(1, same_v(y2, yp));
+        DelDVector(&y2); DelMatrix(&S2); DelMatrix(&big); }
+      pr_long("reuse_bad", reuse_mask);
       DelDVector(&yp); DelMatrix(&S); DelMatrix(&xy); DelDVector(&xs);
     }
     else if(!strcmp(op, "nm")){
@@ -30,6 +41,13 @@ int main(void)
       initDVector(&best); nevals = 0;
       res = NelderMeadSimplex(&quad, x0, step, xtol, iter, best);
       pr_double("res", res); pr_dvector("best", best); pr_double("f_best", quad(best)); pr_long("evals", nevals);
+      reuse_mask = 0;
+      { /* the result vector already holding numbers (right size / wrong size), and the start point used as result vector */
+        dvector *b2, *xa; double r2;
+        b2 = dup_dvector(best); junk_v(b2); r2 = NelderMeadSimplex(&quad, x0, step, xtol, iter, b2); RB(0, same_d(r2, res) && same_v(b2, best)); DelDVector(&b2);
+        NewDVector(&b2, x0->size + 2); junk_v(b2); r2 = NelderMeadSimplex(&quad, x0, step, xtol, iter, b2); RB(0, same_d(r2, res) && same_v(b2, best)); DelDVector(&b2);
+        xa = dup_dvector(x0); r2 = NelderMeadSimplex(&quad, xa, step, xtol, iter, xa); RB(1, same_d(r2, res) && same_v(xa, best)); DelDVector(&xa); }
+      pr_long("reuse_bad", reuse_mask);
       DelDVector(&best); DelDVector(&x0); DelDVector(&step); DelMatrix(&QA); DelDVector(&Qb);
     }
     else{ fprintf(stderr, "unknown op %s\n", op); return 2; }
